@@ -58,6 +58,13 @@ def _roots():
     return {}
 
 
+def _csqrts():
+    from . import ctx as _ctx
+    if _ctx.has_current():
+        return getattr(_ctx.current(), "_csqrt_defs", {})
+    return {}
+
+
 def eval_term(t, env, cache=None):
     """env: name -> float (or [num, den])."""
     if cache is None:
@@ -98,6 +105,12 @@ def eval_term(t, env, cache=None):
                     if uval < 0:
                         raise EvalError("root of negative value")
                     cache[k] = uval ** (1.0 / rd[1])
+                    continue
+                cd = _csqrts().get(k)
+                if cd is not None:     # principal complex square root (u, v) of a + ib
+                    import cmath
+                    z = cmath.sqrt(complex(eval_term(cd[0], env, cache), eval_term(cd[1], env, cache)))
+                    cache[k] = z.imag if cd[2] else z.real
                     continue
                 if nm not in env:
                     raise EvalError("no value for symbol %s" % nm)
